@@ -256,6 +256,11 @@ class load(DataStreamProcessor):
             if count >= self.limit_rows:
                 break
 
+    @staticmethod
+    def drained_after(iterator, raw):
+        yield from iterator
+        collections.deque(raw, maxlen=0)
+
     def stringer(self, iterator):
         for r in iterator:
             yield dict(
@@ -281,6 +286,7 @@ class load(DataStreamProcessor):
         yield from super(load, self).process_resources(resources)
         iterators = iter(self.iterators)
         for descriptor, it in zip(self.resource_descriptors, iterators):
+            raw = it
             if self.extract_missing_values:
                 it = self.missing_values_extractor(it)
             it = self.caster(descriptor, it)
@@ -288,6 +294,9 @@ class load(DataStreamProcessor):
                 it = self.stripper(it)
             if self.limit_rows:
                 it = self.limiter(it)
+                if isinstance(self.load_source, tuple):
+                    # the rest of the rows still has to flow for the steps the source is made of
+                    it = self.drained_after(it, raw)
             yield it
         # a (descriptor, iterators) source has only run to its end once its
         # iterator of iterators is exhausted (an upstream dumper finishes then)
